@@ -158,13 +158,13 @@ harness('h_ctrl::c17_arp_eth_ipv4_sizes', ['C17'], 'bounded (byte strings 0..=32
 harness('h_tcpopt::c13_tcpopt_step', ['C13', 'C02', 'C01'], 'complete (every option area of 0..=40 bytes, one-step contract, induction gives tiling/termination/stays-exhausted)', 'TcpOptionsIterator::next == RFC reference step: element from exactly the consumed prefix, rest() = suffix by address, errors state real kind/size/remaining len, exhausted after None/Err', tier='quick', bound='none', timeout=900)
 harness('h_tcpopt::c13_tcpopt_encode_n0', ['C13'], 'complete (empty list)', 'try_from_elements(&[]) -> len 0, data_offset 5, iteration empty', tier='quick', bound='list length 0', timeout=120)
 harness('h_tcpopt::c13_tcpopt_encode_n1', ['C13'], 'bounded (all lists of exactly 1 element, all kinds/values/SACK patterns)', 'try_from_elements: Ok iff sum<=40, len=round_up_4, END padding, iteration yields the elements then ends, data_offset', tier='quick', bound='list length 1', timeout=900)
-harness('h_tcpopt::c13_tcpopt_encode_n2', ['C13'], 'bounded (all lists of exactly 2 elements; sizes 2..68)', 'as n1 plus Err(NotEnoughSpace(real sum))', tier='thorough', bound='list length 2', timeout=1200)
+harness('h_tcpopt::c13_tcpopt_encode_n2', ['C13'], 'bounded (all lists of exactly 2 elements; sizes 2..68)', 'as n1 plus Err(NotEnoughSpace(real sum))', tier='quick', bound='list length 2', timeout=1200)
 harness('h_tcpopt::c13_tcpopt_encode_n3', ['C13'], 'bounded (all lists of exactly 3 elements; reaches sum==40 and 41)', 'as n2', tier='quick', bound='list length 3', timeout=1800)
 harness('h_tcpopt::c13_tcpopt_encode_n4', ['C13'], 'bounded (all lists of exactly 4 elements)', 'as n2', tier='thorough', bound='list length 4', timeout=3000)
 harness('h_tcpopt::c13_tcpopt_encode_sack_identity', ['C13'], 'complete (every single SACK element incl. gap patterns)', 'STRICT: encode+iterate returns the identical SACK element', tier='quick', bound='single element', timeout=600)
 harness('h_tcpopt::c13_tcpopt_encode_sack_canonical', ['C13'], 'complete (every single gap-free SACK element)', 'encode+iterate is the identity for gap-free SACK values', tier='quick', bound='single element', timeout=600)
 harness('h_tcpopt::c13_tcpopt_try_from_slice', ['C13', 'C14'], 'complete (every slice of 0..=44 bytes)', 'try_from_slice / TryFrom<&[u8]> / TcpHeader::set_options_raw: Ok iff len<=40, bytes kept, zero-padded to multiple of 4, else NotEnoughSpace(len) and header unchanged; header_len==20+len==4*data_offset', tier='quick', bound='none (lengths above 44 not enumerated)', timeout=600)
-harness('h_tcpopt::c13_tcpopt_set_options', ['C13'], 'bounded (all lists of exactly 2 elements)', 'TcpHeader::set_options: header_len/data_offset consistent on Ok, header unchanged + NotEnoughSpace(sum) on Err', tier='thorough', bound='list length 2', timeout=1200)
+harness('h_tcpopt::c13_tcpopt_set_options', ['C13'], 'bounded (all lists of exactly 2 elements)', 'TcpHeader::set_options: header_len/data_offset consistent on Ok, header unchanged + NotEnoughSpace(sum) on Err', tier='quick', bound='list length 2', timeout=1200)
 harness('h_tcpopt::c13_tcpopt_encode_noops_40_41', ['C13'], 'bounded (two concrete lists: 40 and 41 NOPs)', 'longest fitting list by count Ok and iterates to 40 Noop; 41 -> NotEnoughSpace(41)', tier='quick', bound='2 concrete inputs', timeout=600)
 harness('h_tcpopt::c13_tcpopt_from_array_4', ['C13'], 'complete (all [u8;4])', 'From<[u8;4]> keeps bytes/len, equals try_from_slice', tier='quick', bound='none', timeout=120)
 harness('h_tcpopt::c13_tcpopt_from_array_20', ['C13'], 'complete (all [u8;20])', 'From<[u8;20]> keeps bytes/len', tier='quick', bound='none', timeout=120)
@@ -191,37 +191,37 @@ harness('h_roundtrip::c15_nobleed_macsec', ['C15'], 'complete (all 4 sizes 6/8/1
 harness('h_roundtrip::c08_rt_macsec', ['C08', 'C15'], 'complete (all 4 sizes; excludes Unmodified with short_len 1)', 'MacsecHeader value->bytes->value (to_bytes, write, from_slice, read)', tier='quick', bound='none', timeout=300, heavy=False)
 harness('h_roundtrip::c08_br_macsec', ['C08'], 'complete (all strings of length 0..=16)', 'MacsecHeader bytes->value->bytes, mask = bits 8,7 of SL octet; V=1 rejected', tier='quick', bound='none', timeout=300, heavy=False)
 harness('h_roundtrip::c15_nobleed_ipv4', ['C15'], 'complete (all fields, options 0,4..40)', 'Ipv4Header::to_bytes == RFC 791 per-byte formula, reserved flag 0', tier='quick', bound='none', timeout=300, heavy=False)
-harness('h_roundtrip::c08_rt_ipv4', ['C08', 'C15'], 'complete (options 0,4..40; unwind 65)', 'Ipv4Header: to_bytes len, write_raw == to_bytes, from_slice/read give value back', tier='thorough', bound='none', timeout=582, heavy=False)
+harness('h_roundtrip::c08_rt_ipv4', ['C08', 'C15'], 'complete (options 0,4..40; unwind 65)', 'Ipv4Header: to_bytes len, write_raw == to_bytes, from_slice/read give value back', tier='quick', bound='none', timeout=582, heavy=False)
 harness('h_roundtrip::c08_rt_ipv4_write', ['C08'], 'complete modulo stubbed calc_header_checksum (unwind 65)', 'Ipv4Header::write == to_bytes except checksum bytes == calc_header_checksum(); decode gives value with checksum filled', tier='quick', bound='none', timeout=300, heavy=False)
-harness('h_roundtrip::c08_br_ipv4', ['C08'], 'complete (all strings of length 0..=60; unwind 65)', 'Ipv4Header bytes->value->bytes, mask = reserved flag bit; acceptance condition', tier='thorough', bound='none', timeout=366, heavy=False)
+harness('h_roundtrip::c08_br_ipv4', ['C08'], 'complete (all strings of length 0..=60; unwind 65)', 'Ipv4Header bytes->value->bytes, mask = reserved flag bit; acceptance condition', tier='quick', bound='none', timeout=366, heavy=False)
 harness('h_roundtrip::c08_rt_tcp', ['C08'], 'complete (all flags, raw options 0..=40 incl. padding; unwind 65)', 'TcpHeader layout per RFC 9293, set_options_raw padding, to_bytes == write, from_slice gives value back', tier='thorough', bound='none', timeout=1086, heavy=False)
-harness('h_roundtrip::c08_rt_tcp_read', ['C08'], 'complete (same domain; unwind 65)', 'TcpHeader::read(to_bytes) == value', tier='thorough', bound='none', timeout=390, heavy=False)
-harness('h_roundtrip::c08_br_tcp', ['C08'], 'complete (all strings of length 0..=60; unwind 65)', 'TcpHeader bytes->value->bytes, mask = reserved bits 3..1 of byte 12', tier='thorough', bound='none', timeout=420, heavy=False)
-harness('h_roundtrip::c08_rt_icmpv4', ['C08'], 'complete (every typed variant + Unknown for untyped (type,code))', 'Icmpv4Header layout per RFC 792/1191, to_bytes == write, from_slice gives value back (8 and 20 byte forms)', tier='thorough', bound='none', timeout=822, heavy=False)
-harness('h_roundtrip::c08_rt_icmpv4_read', ['C08'], 'complete (same domain)', 'Icmpv4Header::read(to_bytes) == value', tier='thorough', bound='none', timeout=504, heavy=False)
-harness('h_roundtrip::c08_br_icmpv4', ['C08'], 'complete (all strings of length 0..=24)', 'Icmpv4Header bytes->value->bytes with per-(type,code) mask of unused bytes; typed variant iff known pair', tier='thorough', bound='none', timeout=456, heavy=False)
-harness('h_roundtrip::c08_rt_icmpv6', ['C08'], 'complete (every typed variant + Unknown)', 'Icmpv6Header layout per RFC 4443/4861, write, from_slice, read', tier='thorough', bound='none', timeout=390, heavy=False)
+harness('h_roundtrip::c08_rt_tcp_read', ['C08'], 'complete (same domain; unwind 65)', 'TcpHeader::read(to_bytes) == value', tier='quick', bound='none', timeout=390, heavy=False)
+harness('h_roundtrip::c08_br_tcp', ['C08'], 'complete (all strings of length 0..=60; unwind 65)', 'TcpHeader bytes->value->bytes, mask = reserved bits 3..1 of byte 12', tier='quick', bound='none', timeout=420, heavy=False)
+harness('h_roundtrip::c08_rt_icmpv4', ['C08'], 'complete (every typed variant + Unknown for untyped (type,code))', 'Icmpv4Header layout per RFC 792/1191, to_bytes == write, from_slice gives value back (8 and 20 byte forms)', tier='quick', bound='none', timeout=822, heavy=False)
+harness('h_roundtrip::c08_rt_icmpv4_read', ['C08'], 'complete (same domain)', 'Icmpv4Header::read(to_bytes) == value', tier='quick', bound='none', timeout=504, heavy=False)
+harness('h_roundtrip::c08_br_icmpv4', ['C08'], 'complete (all strings of length 0..=24)', 'Icmpv4Header bytes->value->bytes with per-(type,code) mask of unused bytes; typed variant iff known pair', tier='quick', bound='none', timeout=456, heavy=False)
+harness('h_roundtrip::c08_rt_icmpv6', ['C08'], 'complete (every typed variant + Unknown)', 'Icmpv6Header layout per RFC 4443/4861, write, from_slice, read', tier='quick', bound='none', timeout=390, heavy=False)
 harness('h_roundtrip::c08_br_icmpv6', ['C08'], 'complete (all strings of length 0..=12)', 'Icmpv6Header bytes->value->bytes with per-(type,code) mask', tier='quick', bound='none', timeout=300, heavy=False)
 harness('h_roundtrip::c08_rt_igmp', ['C08', 'C15'], 'complete (all 7 variants)', 'IgmpHeader layout, to_bytes len == header_len, from_slice gives value back', tier='quick', bound='none', timeout=300, heavy=False)
 harness('h_roundtrip::c08_br_igmp', ['C08'], 'complete (all strings of length 0..=14)', 'IgmpHeader bytes->value->bytes, mask = byte 1 of reports/leave; 8 vs >=12 byte query split', tier='quick', bound='none', timeout=300, heavy=False)
 harness('h_roundtrip::c15_nobleed_igmp_query_with_sources', ['C15'], 'complete', 'MembershipQueryWithSourcesHeader: set_flags/set_s_flag/set_qrv in 3 orders -> byte 8 == Resv<<4|S<<3|QRV, other bytes own fields', tier='quick', bound='none', timeout=300, heavy=False)
-harness('h_roundtrip::c08_rt_arp_eth_ipv4', ['C08'], 'complete (all values)', 'ArpEthIpv4Packet layout (RFC 826), == to_arp_packet().to_bytes(), ArpPacket::from_slice + try_eth_ipv4 give value back', tier='thorough', bound='none', timeout=564, heavy=False)
+harness('h_roundtrip::c08_rt_arp_eth_ipv4', ['C08'], 'complete (all values)', 'ArpEthIpv4Packet layout (RFC 826), == to_arp_packet().to_bytes(), ArpPacket::from_slice + try_eth_ipv4 give value back', tier='quick', bound='none', timeout=564, heavy=False)
 harness('h_roundtrip::c08_rt_ip_auth_to_bytes', ['C08'], 'bounded (ICV 12 B, shrunk from 16 via set_raw_icv)', 'IpAuthHeader::to_bytes == RFC 4302 image, len == header_len, no stale bytes', tier='thorough', bound='ICV = 12 bytes', timeout=2244, heavy=True)
 harness('h_roundtrip::c08_rt_ip_auth_write_from_slice', ['C08'], 'bounded (ICV 12 B)', 'IpAuthHeader::write == same RFC 4302 image; from_slice(image) == (value, [])', tier='quick', bound='ICV = 12 bytes', timeout=300, heavy=False)
 harness('h_roundtrip::c08_rt_ip_auth_read', ['C08'], 'bounded (ICV 12 B)', 'IpAuthHeader::read(image) == value', tier='quick', bound='ICV = 12 bytes', timeout=300, heavy=False)
-harness('h_roundtrip::c08_br_ip_auth', ['C08'], 'bounded (payload len field 4, input 24..=28 B)', 'IpAuthHeader bytes->value->write, mask = reserved bytes 2,3; decode again same value', tier='thorough', bound='ICV = 12 bytes', timeout=360, heavy=False)
+harness('h_roundtrip::c08_br_ip_auth', ['C08'], 'bounded (payload len field 4, input 24..=28 B)', 'IpAuthHeader bytes->value->write, mask = reserved bytes 2,3; decode again same value', tier='quick', bound='ICV = 12 bytes', timeout=360, heavy=False)
 
 # ---- whole-packet relational / touch harnesses (agent k-packet), all BOUNDED; quick = one representative per clause -------------
 harness('h_packet::c05_lax_vs_strict_ip_v4_udp', ['C05'], 'bounded (all inputs <= 40 B, b[0]==0x45, proto 17)', 'SlicedPacket::from_ip vs LaxSlicedPacket::from_ip: lax extends strict, stop_err layer, incomplete <=> total_len > len', tier='quick', bound='N=40, unwind 4', timeout=900, heavy=False)
-harness('h_packet::c05_lax_vs_strict_ip_v4_tcp', ['C05'], 'bounded (<= 40 B, 0x45, proto 6)', 'same, TCP', tier='thorough', bound='N=40, unwind 4', timeout=900, heavy=False)
-harness('h_packet::c05_lax_vs_strict_ip_v4_icmpv4', ['C05'], 'bounded (<= 40 B, 0x45, proto 1)', 'same, ICMP', tier='thorough', bound='N=40, unwind 4', timeout=900, heavy=False)
-harness('h_packet::c05_lax_vs_strict_ip_v4_icmpv6', ['C05'], 'bounded (<= 40 B, 0x45, proto 58)', 'same, ICMPv6 in IPv4', tier='thorough', bound='N=40, unwind 4', timeout=900, heavy=False)
-harness('h_packet::c05_lax_vs_strict_ip_v4_auth', ['C05'], 'bounded (<= 48 B, 0x45, proto 51 then any)', 'same, AH + any transport', tier='thorough', bound='N=48, unwind 4', timeout=900, heavy=False)
-harness('h_packet::c05_lax_vs_strict_ip_v4_other', ['C05'], 'bounded (<= 40 B, 0x45, proto not in {0,1,6,17,43,44,51,58,60})', 'same, unknown protocol', tier='thorough', bound='N=40, unwind 4', timeout=900, heavy=False)
+harness('h_packet::c05_lax_vs_strict_ip_v4_tcp', ['C05'], 'bounded (<= 40 B, 0x45, proto 6)', 'same, TCP', tier='quick', bound='N=40, unwind 4', timeout=900, heavy=False)
+harness('h_packet::c05_lax_vs_strict_ip_v4_icmpv4', ['C05'], 'bounded (<= 40 B, 0x45, proto 1)', 'same, ICMP', tier='quick', bound='N=40, unwind 4', timeout=900, heavy=False)
+harness('h_packet::c05_lax_vs_strict_ip_v4_icmpv6', ['C05'], 'bounded (<= 40 B, 0x45, proto 58)', 'same, ICMPv6 in IPv4', tier='quick', bound='N=40, unwind 4', timeout=900, heavy=False)
+harness('h_packet::c05_lax_vs_strict_ip_v4_auth', ['C05'], 'bounded (<= 48 B, 0x45, proto 51 then any)', 'same, AH + any transport', tier='quick', bound='N=48, unwind 4', timeout=900, heavy=False)
+harness('h_packet::c05_lax_vs_strict_ip_v4_other', ['C05'], 'bounded (<= 40 B, 0x45, proto not in {0,1,6,17,43,44,51,58,60})', 'same, unknown protocol', tier='quick', bound='N=40, unwind 4', timeout=900, heavy=False)
 harness('h_packet::c05_lax_vs_strict_ip_v4_ihl_udp', ['C05'], 'bounded (<= 40 B, version 4, symbolic IHL, proto 17)', 'same, IPv4 options', tier='thorough', bound='N=40, unwind 8', timeout=1800, heavy=False)
 harness('h_packet::c05_lax_vs_strict_ip_v6_udp', ['C05'], 'bounded (<= 56 B, b[0]==0x60, next 17)', 'same, IPv6+UDP', tier='quick', bound='N=56, unwind 4', timeout=900, heavy=False)
-harness('h_packet::c05_lax_vs_strict_ip_v6_icmpv6', ['C05'], 'bounded (<= 56 B, 0x60, next 58)', 'same, IPv6+ICMPv6', tier='thorough', bound='N=56, unwind 4', timeout=900, heavy=False)
-harness('h_packet::c05_lax_vs_strict_ip_v6_other', ['C05'], 'bounded (<= 48 B, 0x60, unknown next header)', 'same', tier='thorough', bound='N=48, unwind 4', timeout=1200, heavy=False)
+harness('h_packet::c05_lax_vs_strict_ip_v6_icmpv6', ['C05'], 'bounded (<= 56 B, 0x60, next 58)', 'same, IPv6+ICMPv6', tier='quick', bound='N=56, unwind 4', timeout=900, heavy=False)
+harness('h_packet::c05_lax_vs_strict_ip_v6_other', ['C05'], 'bounded (<= 48 B, 0x60, unknown next header)', 'same', tier='quick', bound='N=48, unwind 4', timeout=1200, heavy=False)
 harness('h_packet::c05_lax_vs_strict_ip_any_short', ['C05','C02'], 'bounded (all inputs <= 24 B, nothing fixed)', 'same, version dispatch/short/unknown version', tier='quick', bound='N=24, unwind 4', timeout=900, heavy=False)
 harness('h_packet::c04_headers_vs_sliced_ip_v4_udp', ['C04', 'C02'], 'bounded (<= 32 B, 0x45, proto 17)', 'PacketHeaders::from_ip_slice vs SlicedPacket::from_ip (UDP incl. inconsistent length fields: the D3 domain)', tier='thorough', bound='N=32, unwind 42', timeout=3600, heavy=True)
 harness('h_packet::c04_headers_vs_sliced_ip_v4_udp_consistent_len', ['C04'], 'bounded (<= 32 B, 0x45, UDP, udp.length in {0, ip payload len})', 'same outside the D3 domain', tier='thorough', bound='N=32, unwind 42', timeout=3600, heavy=True)
@@ -231,8 +231,8 @@ harness('h_packet::c06_ip_variants_v4', ['C06'], 'bounded (20..=44 B, version 4,
 harness('h_packet::c06_ip_variants_v6', ['C06'], 'bounded (1..=48 B, b[0]==0x60)', 'IpSlice==Ipv6Slice, LaxIpSlice==LaxIpv6Slice', tier='thorough', bound='N=48, unwind 5', timeout=1800, heavy=False)
 harness('h_packet::c06_ip_variants_other_version', ['C06'], 'bounded (<= 8 B, version not 4/6 or empty)', 'IpSlice/IpHeaders/LaxIpSlice/IpHeaders lax: same error, = version found', tier='quick', bound='N=8', timeout=600, heavy=False)
 harness('h_packet::c06_doors_ether_type_vs_ip_v4_udp', ['C06'], 'bounded (<= 40 B, 0x45, UDP)', 'from_ether_type(IPV4) vs from_ip, SlicedPacket + LaxSlicedPacket', tier='quick', bound='N=40, unwind 4', timeout=1200, heavy=False)
-harness('h_packet::c06_doors_ether_type_vs_ip_v4_ihl', ['C06'], 'bounded (20..=28 B, version 4, symbolic IHL, unknown proto)', 'same, header faults', tier='thorough', bound='N=28, unwind 8', timeout=1200, heavy=False)
-harness('h_packet::c06_doors_ether_type_vs_ip_v6_udp', ['C06'], 'bounded (<= 52 B, 0x60, UDP)', 'from_ether_type(IPV6) vs from_ip', tier='thorough', bound='N=52, unwind 4', timeout=1500, heavy=False)
+harness('h_packet::c06_doors_ether_type_vs_ip_v4_ihl', ['C06'], 'bounded (20..=28 B, version 4, symbolic IHL, unknown proto)', 'same, header faults', tier='quick', bound='N=28, unwind 8', timeout=1200, heavy=False)
+harness('h_packet::c06_doors_ether_type_vs_ip_v6_udp', ['C06'], 'bounded (<= 52 B, 0x60, UDP)', 'from_ether_type(IPV6) vs from_ip', tier='quick', bound='N=52, unwind 4', timeout=1500, heavy=False)
 harness('h_packet::c01_touch_udp_slice', ['C01','C02'], 'bounded (<= 16 B)', 'UdpSlice from_slice/_lax, all accessors, sub-slices inside', tier='quick', bound='N=16', timeout=300, heavy=False)
 harness('h_packet::c01_touch_single_vlan_slice', ['C01','C02'], 'bounded (<= 12 B)', 'SingleVlanSlice', tier='quick', bound='N=12', timeout=300, heavy=False)
 harness('h_packet::c01_touch_ethernet2_slice', ['C01','C02'], 'bounded (<= 24 B)', 'Ethernet2Slice without/with FCS', tier='quick', bound='N=24', timeout=360, heavy=False)
@@ -250,7 +250,7 @@ harness('h_extdef::c11_frag_range_merge', ['C11'], 'complete (loop-free, 4 x u16
 harness('h_extdef::c11_defrag_buf_step2', ['C11'], 'bounded (2 fragments <=16 B, 64-byte window)', 'IpDefragBuf::add step contract vs ghost view (well-formed sections, bytes kept, documented errors, Err leaves state)', tier='quick', bound='2 adds, frag<=16B, window 64B', timeout=900)
 harness('h_extdef::c11_defrag_buf_step', ['C11'], 'bounded (3 fragments <=16 B, 64-byte window)', 'same contract, pre-state = up to 2 accepted fragments', tier='thorough', bound='3 adds, frag<=16B, window 64B', timeout=1800, heavy=True)
 harness('h_extdef::c11_defrag_buf_orders', ['C11'], 'bounded (3x8 B cut, 6 orders, recycled stale buffer)', 'complete exactly at last missing fragment, data==payload, no stale bytes', tier='quick', bound='one cut 3x8B', timeout=900)
-harness('h_extdef::c11_defrag_buf_dups', ['C11'], 'bounded (2x8 B cut, 3 deliveries with one duplicate)', 'duplicates before/after completion', tier='thorough', bound='one cut 2x8B', timeout=900)
+harness('h_extdef::c11_defrag_buf_dups', ['C11'], 'bounded (2x8 B cut, 3 deliveries with one duplicate)', 'duplicates before/after completion', tier='quick', bound='one cut 2x8B', timeout=900)
 harness('h_extdef::c12_set_then_walk', ['C12'], 'complete for walk domain (48 presence combos x links x n)', 'set_next_headers links in RFC 8200 order, next_header(first)==Ok(n)', tier='quick', bound='payload sizes minimal', timeout=300)
 harness('h_extdef::c12_walk_errors', ['C12'], 'complete for walk domain', 'next_header == reference walk; specific ExtsWalkError, nothing dropped', tier='quick', bound='payload sizes minimal', timeout=300)
 harness('h_extdef::c12_write_iff_walk', ['C12', 'C10'], 'complete for walk domain, AH::to_bytes stubbed', 'write Ok <=> walk Ok <=> ref; bytes==header_len; no panic', tier='quick', bound='payload sizes minimal; AH to_bytes stub', timeout=1800)
@@ -284,8 +284,8 @@ harness('h_io::c06_read_vs_slice_macsec', ['C06', 'C15'], 'complete (0..=19 B)',
 harness('h_io::c16_read_fail_macsec', ['C16'], 'complete', 'MacsecHeader::read reader fault', tier='quick', bound='none', timeout=300)
 harness('h_io::c16_write_fail_macsec', ['C16'], 'complete', 'MacsecHeader::write writer fault', tier='quick', bound='none', timeout=300)
 harness('h_io::c06_read_vs_slice_ipv6', ['C06', 'C15'], 'complete (0..=43 B)', 'Ipv6Header read vs from_slice incl. truncated+wrong version', tier='quick', bound='none', timeout=300)
-harness('h_io::c16_read_fail_ipv6', ['C16'], 'complete', 'Ipv6Header::read reader fault', tier='thorough', bound='none', timeout=300)
-harness('h_io::c16_write_fail_ipv6', ['C16'], 'complete', 'Ipv6Header::write writer fault', tier='thorough', bound='none', timeout=300)
+harness('h_io::c16_read_fail_ipv6', ['C16'], 'complete', 'Ipv6Header::read reader fault', tier='quick', bound='none', timeout=300)
+harness('h_io::c16_write_fail_ipv6', ['C16'], 'complete', 'Ipv6Header::write writer fault', tier='quick', bound='none', timeout=300)
 harness('h_io::c06_read_vs_slice_ipv6_fragment', ['C06', 'C15'], 'complete (0..=11 B)', 'Ipv6FragmentHeader read vs from_slice', tier='quick', bound='none', timeout=300)
 harness('h_io::c16_read_fail_ipv6_fragment', ['C16'], 'complete', 'Ipv6FragmentHeader::read reader fault', tier='quick', bound='none', timeout=300)
 harness('h_io::c16_write_fail_ipv6_fragment', ['C16'], 'complete', 'Ipv6FragmentHeader::write writer fault', tier='quick', bound='none', timeout=300)
@@ -294,29 +294,29 @@ harness('h_io::c16_read_fail_udp', ['C16'], 'complete', 'UdpHeader::read reader 
 harness('h_io::c16_write_fail_udp', ['C16'], 'complete', 'UdpHeader::write writer fault', tier='quick', bound='none', timeout=300)
 harness('h_io::c06_read_vs_slice_icmpv4', ['C06'], 'complete (0..=23 B; timestamp msgs on slices ending with the header)', 'Icmpv4Header read vs from_slice', tier='quick', bound='none', timeout=300)
 harness('h_io::c16_read_fail_icmpv4', ['C16'], 'complete', 'Icmpv4Header::read reader fault', tier='quick', bound='none', timeout=300)
-harness('h_io::c16_write_fail_icmpv4', ['C16'], 'complete', 'Icmpv4Header::write writer fault', tier='thorough', bound='none', timeout=375)
+harness('h_io::c16_write_fail_icmpv4', ['C16'], 'complete', 'Icmpv4Header::write writer fault', tier='quick', bound='none', timeout=375)
 harness('h_io::c06_read_vs_slice_icmpv6', ['C06'], 'complete (0..=11 B)', 'Icmpv6Header read vs from_slice', tier='quick', bound='none', timeout=300)
 harness('h_io::c16_read_fail_icmpv6', ['C16'], 'complete', 'Icmpv6Header::read reader fault', tier='quick', bound='none', timeout=300)
 harness('h_io::c16_write_fail_icmpv6', ['C16'], 'complete', 'Icmpv6Header::write writer fault', tier='quick', bound='none', timeout=300)
 harness('h_io::c06_read_vs_slice_ipv4', ['C06', 'C15'], 'complete (0..=62 B, every IHL, unwind 42 with unwinding assertions)', 'Ipv4Header read vs from_slice', tier='quick', bound='none', timeout=300)
 harness('h_io::c16_read_fail_ipv4', ['C16'], 'complete', 'Ipv4Header::read reader fault (20..=60 B encodings)', tier='quick', bound='none', timeout=300)
-harness('h_io::c16_write_fail_ipv4_raw', ['C16'], 'complete', 'Ipv4Header::write_raw writer fault, header+options pieces, prefix', tier='thorough', bound='none', timeout=300)
+harness('h_io::c16_write_fail_ipv4_raw', ['C16'], 'complete', 'Ipv4Header::write_raw writer fault, header+options pieces, prefix', tier='quick', bound='none', timeout=300)
 harness('h_io::c16_write_fail_ipv4', ['C16'], 'complete', 'Ipv4Header::write (with checksum calc) writer fault', tier='thorough', bound='none', timeout=3160)
 harness('h_io::c06_read_vs_slice_tcp', ['C06'], 'complete (0..=62 B, every data offset)', 'TcpHeader read vs from_slice', tier='quick', bound='none', timeout=300)
 harness('h_io::c16_read_fail_tcp', ['C16'], 'complete', 'TcpHeader::read reader fault', tier='quick', bound='none', timeout=300)
 harness('h_io::c16_write_fail_tcp', ['C16'], 'complete', 'TcpHeader::write writer fault, header+options pieces', tier='quick', bound='none', timeout=300)
-harness('h_io::c06_read_vs_slice_ip_auth', ['C06'], 'bounded (ICV <= 16 B)', 'IpAuthHeader read vs from_slice', tier='thorough', bound='ICV <= 16 B', timeout=480)
-harness('h_io::c16_read_fail_ip_auth', ['C16'], 'bounded (ICV <= 16 B)', 'IpAuthHeader::read reader fault', tier='thorough', bound='ICV <= 16 B', timeout=300)
-harness('h_io::c16_write_fail_ip_auth', ['C16'], 'bounded (ICV <= 16 B)', 'IpAuthHeader::write writer fault, two pieces', tier='thorough', bound='ICV <= 16 B', timeout=300)
-harness('h_io::c06_read_vs_slice_ipv6_raw_ext', ['C06'], 'bounded (payload <= 14 B)', 'Ipv6RawExtHeader read vs from_slice', tier='thorough', bound='payload <= 14 B', timeout=625)
-harness('h_io::c16_read_fail_ipv6_raw_ext', ['C16'], 'bounded (payload <= 14 B)', 'Ipv6RawExtHeader::read reader fault', tier='thorough', bound='payload <= 14 B', timeout=520)
-harness('h_io::c16_write_fail_ipv6_raw_ext', ['C16'], 'bounded (payload <= 14 B)', 'Ipv6RawExtHeader::write writer fault, two pieces', tier='thorough', bound='payload <= 14 B', timeout=680)
+harness('h_io::c06_read_vs_slice_ip_auth', ['C06'], 'bounded (ICV <= 16 B)', 'IpAuthHeader read vs from_slice', tier='quick', bound='ICV <= 16 B', timeout=480)
+harness('h_io::c16_read_fail_ip_auth', ['C16'], 'bounded (ICV <= 16 B)', 'IpAuthHeader::read reader fault', tier='quick', bound='ICV <= 16 B', timeout=300)
+harness('h_io::c16_write_fail_ip_auth', ['C16'], 'bounded (ICV <= 16 B)', 'IpAuthHeader::write writer fault, two pieces', tier='quick', bound='ICV <= 16 B', timeout=300)
+harness('h_io::c06_read_vs_slice_ipv6_raw_ext', ['C06'], 'bounded (payload <= 14 B)', 'Ipv6RawExtHeader read vs from_slice', tier='quick', bound='payload <= 14 B', timeout=625)
+harness('h_io::c16_read_fail_ipv6_raw_ext', ['C16'], 'bounded (payload <= 14 B)', 'Ipv6RawExtHeader::read reader fault', tier='quick', bound='payload <= 14 B', timeout=520)
+harness('h_io::c16_write_fail_ipv6_raw_ext', ['C16'], 'bounded (payload <= 14 B)', 'Ipv6RawExtHeader::write writer fault, two pieces', tier='quick', bound='payload <= 14 B', timeout=680)
 harness('h_io::c06_read_vs_slice_arp', ['C06'], 'bounded (addr sizes <= 4)', 'ArpPacket read vs from_slice', tier='thorough', bound='addr sizes <= 4', timeout=1305)
 harness('h_io::c16_read_fail_arp', ['C16'], 'bounded (addr sizes <= 4)', 'ArpPacket::read reader fault', tier='thorough', bound='addr sizes <= 4', timeout=955)
 harness('h_io::c16_write_fail_ipv6_exts', ['C16'], 'bounded (one concrete chain: hop-by-hop(6 B payload)+fragment)', 'Ipv6Extensions::write writer fault at k in 0..=16, prefix', tier='thorough', bound='one concrete chain: hop-by-hop(6 B payload)+fragment', timeout=835, heavy=True)
 harness('h_io::c16_write_fail_ip_headers', ['C16'], 'bounded (one concrete IPv4 header, no exts)', 'IpHeaders::write writer fault at k in 0..=20', tier='quick', bound='one concrete IPv4 header, no exts', timeout=300)
-harness('h_io::c16_slice_space_builder_udp', ['C16', 'C10'], 'bounded (eth+ipv4+udp concrete, payload len 0..=4)', 'PacketBuilder::write_to_slice: Space(real len), canaries, == io::Write output', tier='thorough', bound='eth+ipv4+udp concrete, payload len 0..=4', timeout=1180, heavy=True)
-harness('h_io::c16_write_fail_builder_udp', ['C16', 'C10'], 'bounded (eth+ipv4+udp concrete, payload len 0..=4)', 'PacketBuilder::write writer fault at k: BuildWriteError::Io, prefix over 4 pieces', tier='thorough', bound='eth+ipv4+udp concrete, payload len 0..=4', timeout=1665, heavy=True)
+harness('h_io::c16_slice_space_builder_udp', ['C16', 'C10'], 'bounded (eth+ipv4+udp concrete, payload len 0..=4)', 'PacketBuilder::write_to_slice: Space(real len), canaries, == io::Write output', tier='quick', bound='eth+ipv4+udp concrete, payload len 0..=4', timeout=1180, heavy=True)
+harness('h_io::c16_write_fail_builder_udp', ['C16', 'C10'], 'bounded (eth+ipv4+udp concrete, payload len 0..=4)', 'PacketBuilder::write writer fault at k: BuildWriteError::Io, prefix over 4 pieces', tier='quick', bound='eth+ipv4+udp concrete, payload len 0..=4', timeout=1665, heavy=True)
 harness('h_packet::c06_ip_variants_v4_short_lax', ['C06'], 'bounded (all inputs 1..=19 B, version 4)', 'LaxIpSlice vs LaxIpv4Slice on inputs shorter than the minimal IPv4 header (finding D6-lax lives here)', tier='quick', bound='N=19', timeout=600)
 
 # ---- C14 setters (agent k-setters); all "true maxima" derived in the harness from field widths -----------------------------------
@@ -332,7 +332,7 @@ harness('h_setters::c14_ah_new', ['C14'], 'complete (ICV len 0..=1032, symbolic 
 harness('h_setters::c14_ah_set_raw_icv', ['C14'], 'complete (every header ICV len x new ICV len 0..=1032)', 'IpAuthHeader::set_raw_icv: same rule; header unchanged on Err', tier='quick', bound='ICV <= 1032 B (rest: c14_ah_huge)', timeout=300, heavy=False)
 harness('h_setters::c14_ah_huge', ['C14'], 'complete (all lens 1017..=isize::MAX, fabricated slice)', 'IpAuthHeader::new/set_raw_icv reject every longer ICV, read nothing, header unchanged', tier='quick', bound='none', timeout=300, heavy=False)
 harness('h_setters::c14_v6ext_new_raw', ['C14'], 'complete (payload len 0..=2064, symbolic content)', 'Ipv6RawExtHeader::new_raw: Ok <=> (len+2)%8==0 && 6<=len<=2046; payload + hdr-ext-len byte exact; truthful ExtPayloadLenError', tier='quick', bound='payload <= 2064 B (rest: c14_v6ext_huge)', timeout=330, heavy=False)
-harness('h_setters::c14_v6ext_set_payload', ['C14'], 'complete (every header len x new payload len 0..=2064)', 'Ipv6RawExtHeader::set_payload: same rule; header unchanged on Err', tier='thorough', bound='payload <= 2064 B (rest: c14_v6ext_huge)', timeout=576, heavy=False)
+harness('h_setters::c14_v6ext_set_payload', ['C14'], 'complete (every header len x new payload len 0..=2064)', 'Ipv6RawExtHeader::set_payload: same rule; header unchanged on Err', tier='quick', bound='payload <= 2064 B (rest: c14_v6ext_huge)', timeout=576, heavy=False)
 harness('h_setters::c14_v6ext_huge', ['C14'], 'complete (all lens 2047..=isize::MAX, fabricated slice)', 'Ipv6RawExtHeader::new_raw/set_payload reject every longer payload, read nothing, header unchanged', tier='quick', bound='none', timeout=300, heavy=False)
 harness('h_setters::c14_ipheaders_v4_set_payload_len', ['C14'], 'complete (all usize x all IPv4 headers x AH absent/any ICV len)', 'IpHeaders::set_payload_len v4: Ok <=> len <= 65535-hdr-ext; total_len exact; Ipv4PayloadLength; unchanged on Err', tier='quick', bound='none', timeout=462, heavy=False)
 harness('h_setters::c14_ipheaders_v6_set_payload_len', ['C14'], 'complete (all usize x all IPv6 headers x subsets of {hop-by-hop any len, fragment})', 'IpHeaders::set_payload_len v6: Ok <=> len <= 65535-ext; payload_length exact; Ipv6PayloadLength; unchanged on Err', tier='quick', bound='2 of 6 ext kinds (all: _all_exts)', timeout=330, heavy=False)
@@ -340,9 +340,9 @@ harness('h_setters::c14_ipheaders_v6_set_payload_len_all_exts', ['C14'], 'comple
 harness('h_setters::c14_tcp_options_try_from_slice', ['C14'], 'complete (slice len 0..=48, symbolic content)', 'TcpOptions::try_from_slice/TryFrom: Ok <=> len<=40; padded to x4 with 0; data offset on the wire; NotEnoughSpace(len)', tier='quick', bound='slice <= 48 B (rest: _huge)', timeout=300, heavy=False)
 harness('h_setters::c14_tcp_options_try_from_slice_huge', ['C14'], 'complete (all lens 41..=isize::MAX, fabricated slice)', 'TcpOptions::try_from_slice rejects every longer slice, reads nothing', tier='quick', bound='none', timeout=300, heavy=False)
 harness('h_setters::c14_arp_new', ['C14'], 'complete (4 independent slices len 0..=258, symbolic content)', 'ArpPacket::new: Ok <=> pairwise equal lens <= 255; sizes + 4 addresses exact; truthful ArpNewError', tier='quick', bound='addr <= 258 B (rest: c14_arp_huge)', timeout=342, heavy=False)
-harness('h_setters::c14_arp_new_wire_eth_ipv4', ['C14'], 'bounded ((hw,proto) lens (6,4),(0,0), symbolic content)', 'ArpPacket::to_bytes: bytes 4,5 = lens, packet_len, sha/spa/tha/tpa order', tier='thorough', bound='2 length pairs', timeout=390, heavy=False)
-harness('h_setters::c14_arp_new_wire_max', ['C14'], 'bounded ((hw,proto) lens (255,255), symbolic content)', 'same at the field maximum (1028 B == MAX_LEN)', tier='thorough', bound='1 length pair', timeout=426, heavy=False)
-harness('h_setters::c14_arp_set_addrs', ['C14'], 'complete (packet sizes 0..=255 x new slices len 0..=258)', 'ArpPacket::set_hw_addrs/set_protocol_addrs: same rule; other kind untouched; unchanged on Err', tier='thorough', bound='addr <= 258 B (rest: c14_arp_huge)', timeout=654, heavy=False)
+harness('h_setters::c14_arp_new_wire_eth_ipv4', ['C14'], 'bounded ((hw,proto) lens (6,4),(0,0), symbolic content)', 'ArpPacket::to_bytes: bytes 4,5 = lens, packet_len, sha/spa/tha/tpa order', tier='quick', bound='2 length pairs', timeout=390, heavy=False)
+harness('h_setters::c14_arp_new_wire_max', ['C14'], 'bounded ((hw,proto) lens (255,255), symbolic content)', 'same at the field maximum (1028 B == MAX_LEN)', tier='quick', bound='1 length pair', timeout=426, heavy=False)
+harness('h_setters::c14_arp_set_addrs', ['C14'], 'complete (packet sizes 0..=255 x new slices len 0..=258)', 'ArpPacket::set_hw_addrs/set_protocol_addrs: same rule; other kind untouched; unchanged on Err', tier='quick', bound='addr <= 258 B (rest: c14_arp_huge)', timeout=654, heavy=False)
 harness('h_setters::c14_arp_huge', ['C14'], 'complete (any 4 lens <= isize::MAX with one > 255, fabricated slices)', 'ArpPacket::new/set_*: always Err, truthful, reads nothing, packet unchanged', tier='quick', bound='none', timeout=300, heavy=False)
 harness('h_setters::c14_tcp_calc_checksum_ipv4_guard', ['C14'], 'complete (all payload lens <= isize::MAX x all TCP headers; add_slice stubbed)', 'TcpHeader::calc_checksum_ipv4(_raw): Ok <=> len <= 65535-(20+opts); exact error', tier='quick', bound='none', timeout=300, heavy=False)
 harness('h_setters::c14_tcp_calc_checksum_ipv6_guard', ['C14'], 'complete (all payload lens <= isize::MAX x all TCP headers; add_slice stubbed)', 'TcpHeader::calc_checksum_ipv6(_raw): Ok <=> len <= 2^32-1-(20+opts); exact error', tier='quick', bound='none', timeout=300, heavy=False)
@@ -352,16 +352,16 @@ harness('h_setters::c14_udp_calc_checksum_guard', ['C14'], 'complete (all payloa
 
 # ---- C09 K cross-checks + C10 (agent k-builder); protocol-level harnesses stub the accumulator by an ideal never-wrapping sum ----
 harness('h_builder::c09_k_helpers_add32_state', ['C09'], 'complete (loop free, all u32 states x 4 bytes)', 'u32 add_2bytes/add_4bytes = end-around-carry add from any state; ones_complement = !fold; no_zero maps 0->0xffff', tier='quick', bound='none', timeout=300)
-harness('h_builder::c09_k_helpers_add64_2', ['C09'], 'complete (loop free, all u64 states)', 'u64 add_2bytes from any state preserves the 16-bit digit sum incl. wrap', tier='thorough', bound='none', timeout=900)
+harness('h_builder::c09_k_helpers_add64_2', ['C09'], 'complete (loop free, all u64 states)', 'u64 add_2bytes from any state preserves the 16-bit digit sum incl. wrap', tier='quick', bound='none', timeout=900)
 harness('h_builder::c09_k_helpers_add64_eac', ['C09'], 'complete (loop free)', 'u64 add_4bytes/add_8bytes == 64-bit one\'s complement add (state+value mod 2^64 + carry)', tier='quick', bound='none', timeout=300)
 harness('h_builder::c09_k_helpers_conv64', ['C09'], 'complete (all u64)', 'u64 ones_complement == !fold(digit sum); with_no_zero maps 0->0xffff', tier='quick', bound='none', timeout=300)
 harness('h_builder::c09_k_helpers_fixed_adders', ['C09'], 'complete for the call sequences (8 symbolic octets)', 'Sum16BitWords add_2+add_4+add_2 and add_8bytes == ref_rfc1071; add_16bytes == 2 x add_8bytes', tier='quick', bound='8 B', timeout=400)
-harness('h_builder::c09_k_helpers_split', ['C09'], 'bounded (8 symbolic octets, 9 (len, even split) shapes)', 'Sum16BitWords add_slice(a).add_slice(b) == RFC 1071 BE reference, memory image and to_be, no-zero variant', tier='thorough', bound='8 B, 9 shapes', timeout=900)
-harness('h_builder::c09_k_helpers_split_u32', ['C09'], 'bounded (8 B, 9 shapes)', 'same for u32_16bit_word', tier='thorough', bound='8 B, 9 shapes', timeout=900)
-harness('h_builder::c09_k_helpers_split_u64', ['C09'], 'bounded (8 B, 9 shapes)', 'same for u64_16bit_word', tier='thorough', bound='8 B, 9 shapes', timeout=900)
+harness('h_builder::c09_k_helpers_split', ['C09'], 'bounded (8 symbolic octets, 9 (len, even split) shapes)', 'Sum16BitWords add_slice(a).add_slice(b) == RFC 1071 BE reference, memory image and to_be, no-zero variant', tier='quick', bound='8 B, 9 shapes', timeout=900)
+harness('h_builder::c09_k_helpers_split_u32', ['C09'], 'bounded (8 B, 9 shapes)', 'same for u32_16bit_word', tier='quick', bound='8 B, 9 shapes', timeout=900)
+harness('h_builder::c09_k_helpers_split_u64', ['C09'], 'bounded (8 B, 9 shapes)', 'same for u64_16bit_word', tier='quick', bound='8 B, 9 shapes', timeout=900)
 harness('h_builder::c09_k_proto_ipv4_header', ['C09'], 'bounded (options <= 12 B; helpers stubbed by ideal accumulator)', 'Ipv4Header::calc_header_checksum == ref over RFC 791 header with zero checksum, all fields symbolic', tier='quick', bound='options <= 12 B', timeout=600)
 harness('h_builder::c09_k_proto_udp_ipv4', ['C09'], 'bounded (payload <= 5 B; helpers stubbed)', 'UdpHeader calc_checksum_ipv4[_raw], with_ipv4_checksum == ref over RFC 768 pseudo hdr+hdr+payload; never 0; stored checksum verifies', tier='quick', bound='payload <= 5 B', timeout=900)
-harness('h_builder::c09_k_proto_udp_ipv6', ['C09'], 'bounded (payload <= 5 B; helpers stubbed)', 'UdpHeader calc_checksum_ipv6[_raw], with_ipv6_checksum == ref over RFC 8200 pseudo hdr', tier='thorough', bound='payload <= 5 B', timeout=900)
+harness('h_builder::c09_k_proto_udp_ipv6', ['C09'], 'bounded (payload <= 5 B; helpers stubbed)', 'UdpHeader calc_checksum_ipv6[_raw], with_ipv6_checksum == ref over RFC 8200 pseudo hdr', tier='quick', bound='payload <= 5 B', timeout=900)
 harness('h_builder::c09_k_proto_tcp_ipv4', ['C09'], 'bounded (options <= 8 B, payload <= 5 B; helpers stubbed)', 'TcpHeader calc_checksum_ipv4[_raw] == ref, all fields/flags symbolic', tier='quick', bound='options <= 8 B, payload <= 5 B', timeout=1200)
 harness('h_builder::c09_k_proto_tcp_ipv6', ['C09'], 'bounded (options <= 8 B, payload <= 5 B; helpers stubbed)', 'TcpHeader calc_checksum_ipv6[_raw] == ref', tier='thorough', bound='options <= 8 B, payload <= 5 B', timeout=1400)
 harness('h_builder::c09_k_proto_icmpv4', ['C09'], 'bounded (payload <= 5 B; helpers stubbed)', 'Icmpv4Type::calc_checksum / Icmpv4Header::with_checksum/update_checksum == ref, every variant hand-encoded per RFC 792', tier='quick', bound='payload <= 5 B', timeout=900)
